@@ -1036,19 +1036,65 @@ Proof.
   - apply Permutation_length_1_inv in Hp. exact Hp.
 Qed.
 
-(* how each unordered iteration of the compile/print path is accounted for: Modelled and Insensitive
-   rows CARRY the proved statement that justifies them; NotObserved rows are review notes *)
+(* ---- loops whose effect never reaches a descriptor or a printed file: what they produce is the same up to order *)
+(* a loop that emits one report / log line per element passing a test (SourceSummary's `import not used`
+   warnings, PrintScope's debug lines): the same reports, as a multiset, for every iteration order *)
+Definition report_loop {A R} (test : A -> bool) (mk : A -> R) (l : list A) : list R := map mk (filter test l).
+Lemma filter_perm {A} (f : A -> bool) l1 l2 : Permutation l1 l2 -> Permutation (filter f l1) (filter f l2).
+Proof.
+  induction 1 as [|x l l' _ IH|x y l|l l' l'' _ IH1 _ IH2]; cbn.
+  - constructor.
+  - destruct (f x); [constructor|]; exact IH.
+  - destruct (f y), (f x); try apply Permutation_refl; apply perm_swap.
+  - eapply Permutation_trans; eassumption.
+Qed.
+Lemma report_loop_perm {A R} (test : A -> bool) (mk : A -> R) l1 l2 :
+  Permutation l1 l2 -> Permutation (report_loop test mk l1) (report_loop test mk l2).
+Proof. intro H. unfold report_loop. apply Permutation_map. apply filter_perm. exact H. Qed.
+(* a loop that returns at the first element that fails (LintAll: the first file with lint errors): WHETHER it
+   returns early does not depend on the order, and what it returns is one of the failing elements *)
+Lemma first_failing_perm {A} (bad : A -> bool) l1 l2 : Permutation l1 l2 ->
+  (find bad l1 = None <-> find bad l2 = None)
+  /\ (forall x, find bad l1 = Some x -> exists y, find bad l2 = Some y /\ bad y = true /\ In y l1).
+Proof.
+  intro Hp. split.
+  - split; intro H.
+    + destruct (find bad l2) as [y|] eqn:E; [|reflexivity]. apply find_some in E. destruct E as [Hi Hb].
+      apply (Permutation_in _ (Permutation_sym Hp)) in Hi. pose proof (find_none _ _ H _ Hi) as Hn. congruence.
+    + destruct (find bad l1) as [y|] eqn:E; [|reflexivity]. apply find_some in E. destruct E as [Hi Hb].
+      apply (Permutation_in _ Hp) in Hi. pose proof (find_none _ _ H _ Hi) as Hn. congruence.
+  - intros x Hx. apply find_some in Hx. destruct Hx as [Hi Hb].
+    destruct (find bad l2) as [y|] eqn:E.
+    + exists y. apply find_some in E. destruct E as [Hy Hby]. split; [reflexivity|]. split; [exact Hby|].
+      apply (Permutation_in _ (Permutation_sym Hp)). exact Hy.
+    + apply (Permutation_in _ Hp) in Hi. pose proof (find_none _ _ E _ Hi) as Hn. congruence.
+Qed.
+(* the key list of a map used only inside a message text / a dead branch: the names listed are the same *)
+Lemma keys_listed_perm {A} (l1 l2 : list A) : Permutation l1 l2 -> forall x, In x l1 <-> In x l2.
+Proof. intros Hp x. split; apply Permutation_in; [exact Hp|apply Permutation_sym; exact Hp]. Qed.
+(* a value that is never used (assigned, then read only under `if false`) *)
+Lemma unused_value {A} (l1 l2 : list A) : (fun _ : list A => tt) l1 = (fun _ : list A => tt) l2.
+Proof. reflexivity. Qed.
+
+(* how each unordered iteration of the compile/print path is accounted for. EVERY row carries a proved
+   statement about the shape of loop body named in [expected_bodies] (which is compared with the shapes
+   regenerated from the Go source): an order parameter of the model with its irrelevance theorem, a
+   commuting / at-most-once body, or a body whose output never reaches a descriptor or a printed file and
+   is the same up to order.  That the Go loop IS an instance of the modelled shape is checked only through
+   the regenerated shape string. *)
 Inductive site_class :=
 | Modelled (param : string) (P : Prop) (pf : P)   (* an order parameter of model/CmpbOrder.v with its irrelevance theorem *)
 | Insensitive (why : string) (P : Prop) (pf : P)  (* the loop body commutes / runs at most once: the lemma that says so *)
-| NotObserved (why : string).                     (* affects only texts C14 does not observe (lint reports, error messages, logs): NOT proved *)
+| Unobserved (why : string) (P : Prop) (pf : P).  (* feeds only lint reports, error texts or logs, none of which C14 observes:
+                                                     the lemma says its output is order-independent up to permutation *)
 
 Definition model_order_sites : list ((string * string * string * string * string) * site_class) :=
   [ (("j5convert", "fields.go", "RangeField", "protoreflect.Message.Range", "pt"),
       Insensitive "setJ5Ext copies each populated field of the Ext message to the same-named field of a fresh message"
         _ assign_distinct_fields_commute);
     (("j5convert", "summary_walk.go", "SourceSummary", "range-map", "importMap.vals"),
-      NotObserved "only emits `import not used` warnings (lint report order); the summary itself is built from slices");
+      Unobserved "one `import not used` warning per unused import (ErrCollector: the lint report); the summary is built from slices before the loop"
+        _ (@report_loop_perm bytes bytes));
     (("optionreflect", "builder.go", "Builder.OptionsFor", "protoreflect.Message.Range", "srcReflect"),
       Modelled "options_for / field_options" _ (conj options_for_perm field_options_perm));
     (("optionreflect", "walk.go", "walkOptionMap", "protoreflect.Map.Range", "mp"),
@@ -1057,11 +1103,13 @@ Definition model_order_sites : list ((string * string * string * string * string
       Insensitive "marks imports as used; stops at the first extension whose file is not imported, which C07_links_in_isolation excludes"
         _ (@first_unresolved_none opt));
     (("protobuild", "lint.go", "LintAll", "range-map", "pkg.Files"),
-      NotObserved "lint path only; C14 observes CompilePackage and PrintFile");
+      Unobserved "LintAll links each file and returns the report of the first one with errors: lint path only (C14 observes CompilePackage and PrintFile)"
+        _ (@first_failing_perm bytes));
     (("protobuild", "packages.go", "Package.includeIO", "range-map", "summary.Exports"),
       Modelled "include_io" _ (@include_io_perm bytes));
     (("protobuild", "packages.go", "PackageSet.findFileByPath", "maps.Keys", "pkg.Files"),
-      NotObserved "text of a `file not found` error message");
+      Unobserved "the keys are joined into the text of a `file not found` error; found / not found is decided before"
+        _ (@keys_listed_perm bytes));
     (("protobuild", "packages.go", "PackageSet.resolveDependencies", "range-map", "deps"),
       Modelled "range_deps (load)" _ (@compile_total_deterministic));
     (("protobuild", "packages.go", "PackageSet.CompilePackage", "range-map", "pkg.Files"),
@@ -1070,15 +1118,18 @@ Definition model_order_sites : list ((string * string * string * string * string
       Insensitive "ranges over the populated members of the Field.type oneof: at most one iteration"
         _ (@at_most_one_has_one_order bytes));
     (("sourcewalk", "sourcewalk.go", "SourceNode.child", "maps.Keys", "walk.Source.Children"),
-      NotObserved "argument of a log line under `if false`");
+      Unobserved "assigned to a variable that is read only by a log line under `if false`"
+        _ (@unused_value bytes));
     (* the front end (internal/bcl/**, lib/j5reflect), scanned since the audit *)
     (("j5reflect", "property_set.go", "copyReflect", "protoreflect.Message.Range", "a"),
       Insensitive "copies each populated field of a into the same field of b: assignments to distinct fields"
         _ assign_distinct_fields_commute);
     (("j5reflect", "type_map.go", "mutableMapField.Range", "protoreflect.Map.Range", "mapField.value"),
-      NotObserved "reader API of map fields (encoder side); no caller in internal/bcl or internal/j5s");
+      Unobserved "reader API of map fields: calls the callback per entry and stops at its first error (encoder side; the walker only sets map entries)"
+        _ (@first_failing_perm bytes));
     (("j5reflect", "type_map.go", "leafMapField.Range", "protoreflect.Map.Range", "mapField.value"),
-      NotObserved "reader API of map fields (encoder side); no caller in internal/bcl or internal/j5s");
+      Unobserved "reader API of map fields: calls the callback per entry and stops at its first error (encoder side; the walker only sets map entries)"
+        _ (@first_failing_perm bytes));
     (("walker/schema", "container_set.go", "containerSet.allChildFields", "range-map", "blockSchema.spec.Aliases"),
       Insensitive "inserts each alias under its own name unless present: the keys of the ranged map are distinct, no key is written twice"
         _ assign_distinct_fields_commute);
@@ -1092,7 +1143,8 @@ Definition model_order_sites : list ((string * string * string * string * string
       Insensitive "copies each new alias into blockSpec.Aliases unless present: distinct keys, no key written twice"
         _ assign_distinct_fields_commute);
     (("walker/schema", "scope.go", "Scope.PrintScope", "range-map", "sw.blockSet.allChildFields()"),
-      NotObserved "debug printing of a scope") ].
+      Unobserved "one debug log line per child field (verbose mode only)"
+        _ (@report_loop_perm bytes bytes)) ].
 
 (* every unordered iteration found by the translator is classified, and nothing else is claimed:
    equality as SETS (moving a loop inside its file does not matter; a new loop, or one that
@@ -1107,6 +1159,49 @@ Definition okeys_subset (a b : list okey) : bool := forallb (fun k => existsb (o
 Definition order_sites_same_set : bool :=
   okeys_subset (map fst model_order_sites) MapRangeGen.sites && okeys_subset MapRangeGen.sites (map fst model_order_sites).
 Lemma order_sites_agree : order_sites_same_set = true.
+Proof. vm_compute. reflexivity. Qed.
+
+(* the SHAPE of each loop body, as regenerated from the Go source (MapRangeGen.bodies: statement kinds in order,
+   and whether a sort call follows in the function), is the one the classification above was written for: a
+   body that starts to do something else (a map write in a report loop, a sort that disappears after a key
+   collection) breaks this lemma *)
+Definition expected_bodies : list (okey * string * bool) :=
+  [ (("j5convert", "fields.go", "RangeField", "protoreflect.Message.Range", "pt"), "assign;return", false);
+    (("j5convert", "summary_walk.go", "SourceSummary", "range-map", "importMap.vals"), "if(cond){continue};assign;decl;if(cond){assign};call:ec.WarnPos", false);
+    (("j5reflect", "property_set.go", "copyReflect", "protoreflect.Message.Range", "a"), "assign;if(cond){call:panic};call:b.Set;return", false);
+    (("j5reflect", "type_map.go", "mutableMapField.Range", "protoreflect.Map.Range", "mapField.value"), "assign;assign;assign;return", false);
+    (("j5reflect", "type_map.go", "leafMapField.Range", "protoreflect.Map.Range", "mapField.value"), "assign;assign;assign;return", false);
+    (("optionreflect", "builder.go", "Builder.OptionsFor", "protoreflect.Message.Range", "srcReflect"), "append;return", true);
+    (("optionreflect", "walk.go", "walkOptionMap", "protoreflect.Map.Range", "mp"), "assign;assign;assign;assign;assign;append;return", true);
+    (("protobuild", "linker.go", "markOptionImportsUsed", "proto.RangeExtensions", "opts"), "assign;assign;assign;if(cond){assign;return};return", false);
+    (("protobuild", "lint.go", "LintAll", "range-map", "pkg.Files"), "assign;if(cond){return};if(cond){if(cond){assign;if(cond){return};return}else{return}}", false);
+    (("protobuild", "packages.go", "Package.includeIO", "range-map", "summary.Exports"), "mapset", false);
+    (("protobuild", "packages.go", "PackageSet.findFileByPath", "maps.Keys", "pkg.Files"), "arg of strings.Join", false);
+    (("protobuild", "packages.go", "PackageSet.resolveDependencies", "range-map", "deps"), "assign;if(cond){return};mapset", false);
+    (("protobuild", "packages.go", "PackageSet.CompilePackage", "range-map", "pkg.Files"), "append", true);
+    (("sourcewalk", "property.go", "buildFieldNode", "protoreflect.Message.Range", "tn"), "assign;return", false);
+    (("sourcewalk", "sourcewalk.go", "SourceNode.child", "maps.Keys", "walk.Source.Children"), "assigned", false);
+    (("walker/schema", "container_set.go", "containerSet.allChildFields", "range-map", "blockSchema.spec.Aliases"), "assign;if(cond){continue};if(cond){mapset}", false);
+    (("walker/schema", "container_set.go", "containerSet.listChildren", "maps.Keys", "fields"), "assigned", true);
+    (("walker/schema", "container_set.go", "containerSet.listAttributes", "range-map", "fields"), "if(cond){append}", true);
+    (("walker/schema", "container_set.go", "containerSet.listBlocks", "range-map", "fields"), "if(cond){append}", true);
+    (("walker/schema", "schemaset.go", "SchemaSet._buildSpec", "range-map", "newAliases"), "if(cond){mapset}", false);
+    (("walker/schema", "scope.go", "Scope.PrintScope", "range-map", "sw.blockSet.allChildFields()"), "call:logf", false) ].
+Definition body_eqb (a b : okey * string * bool) : bool :=
+  match a, b with (k1, s1, b1), (k2, s2, b2) => okey_eqb k1 k2 && String.eqb s1 s2 && Bool.eqb b1 b2 end.
+Definition order_bodies_same_set : bool :=
+  forallb (fun r => existsb (body_eqb r) expected_bodies) MapRangeGen.bodies
+  && forallb (fun r => existsb (body_eqb r) MapRangeGen.bodies) expected_bodies.
+Lemma order_bodies_agree : order_bodies_same_set = true.
+Proof. vm_compute. reflexivity. Qed.
+(* a key collection that is only ever used sorted really is followed by a sort *)
+Definition collected_keys_are_sorted : bool :=
+  forallb (fun r => match r with ((p, f, fn, k, e), body, sorted) =>
+     negb (String.eqb body "append" || String.eqb body "if(cond){append}" || String.eqb body "append;return"
+           || String.eqb body "assign;assign;assign;assign;assign;append;return"
+           || (String.eqb body "assigned" && String.eqb fn "containerSet.listChildren")) || sorted end)
+    MapRangeGen.bodies.
+Lemma collected_keys_sorted : collected_keys_are_sorted = true.
 Proof. vm_compute. reflexivity. Qed.
 
 (* the extensions j5convert sets, grouped by the options message they are set on: for the blocks
